@@ -393,7 +393,8 @@ def run_workers(scratch, binary, runner, base_job, shards=None, case_timeout=30,
                     outcome.infra.append("worker %d died (%s) outside a case: %s" % (si, kind, err[-800:]))
                 return
             with lock:
-                outcome.crashes.append(dict(idx=idx, kind=kind, stderr=err[-1500:], shard=si))
+                outcome.crashes.append(dict(idx=idx, kind=kind, stderr=err[-1500:], shard=si, shards=shards,
+                                            win_from=(nxt if nxt is not None else resume)))
             if len(skip) >= max_crashes:
                 with lock:
                     outcome.infra.append("worker %d: more than %d crashes" % (si, max_crashes))
@@ -437,8 +438,45 @@ def run_workers(scratch, binary, runner, base_job, shards=None, case_timeout=30,
                 c["stderr"] = se[-1500:]
             else:
                 c["confirmed"] = False
+                if c.get("kind") != "fatal:out-of-memory" and not c.get("kind", "").startswith("hang"):
+                    _localise(scratch, binary, runner, base_job, c, case_timeout, env)
             confirmed.append(c)
     return outcome
+
+
+def _localise(scratch, binary, runner, base_job, c, case_timeout, env):
+    """A worker died (heap corruption noticed by the collector, a fault) in a case that passes when run alone: the damage was
+    done by an EARLIER case of the same process.  Re-run the window since the last checkpoint with the collector running
+    almost continuously, so that the process dies right after the culprit, then confirm the culprit alone the same way."""
+    e2 = dict(env or {})
+    e2["GOGC"] = "1"
+    job = dict(base_job)
+    cur = os.path.join(scratch.path, "cur-localise")
+    job.update(shard=c["shard"], shards=c.get("shards", 1), resume=c.get("win_from", 0), only=-1, until=c["idx"], cur_file=cur, skip=[])
+    rc, so, se, to = run_single(binary, runner, job, scratch, timeout=max(case_timeout * 20, 600), env=e2, tag="window")
+    if rc == 0 or to:
+        return
+    y = _read_cur(cur)
+    if y is None:
+        return
+    for cand in (y, y - c.get("shards", 1)):
+        if cand < 0:
+            continue
+        j2 = dict(base_job)
+        j2.update(shard=0, shards=1, resume=0, only=cand, cur_file="", skip=[])
+        rc2, so2, se2, to2 = run_single(binary, runner, j2, scratch, timeout=max(case_timeout * 2, 60), env=e2, tag="confirm")
+        if rc2 != 0 and not to2:
+            case = None
+            for line in so2.splitlines():
+                if line.startswith("{"):
+                    try:
+                        o = json.loads(line)
+                        if o.get("k") == "case":
+                            case = o.get("case")
+                    except ValueError:
+                        pass
+            c.update(idx=cand, case=case, confirmed=True, kind2=_classify_death(rc2, se2), stderr=se2[-1500:], localised=True)
+            return
 
 
 # --------------------------------------------------------------------------- findings
